@@ -28,6 +28,7 @@ CONSTANTS
     AlphaName,      \* which alphabet (see the end of the module), and its size parameter
     AlphaN,
     MaxLines,
+    MinLines,       \* Finish only after this many lines (0 for model checking; = MaxLines for `tlc -simulate`)
     ClearOnEntry,   \* TRUE: convert_path_str starts from an empty scratch list (intended);
                     \* FALSE: a failed slider leaves its earlier segments behind
     LastByKind,     \* TRUE: "follows a spinner" looks at the decoded KIND (the property);
@@ -260,7 +261,7 @@ Reject(i) ==
     /\ UNCHANGED <<last, objs, done>>
 
 Finish ==
-    /\ ~done /\ done' = TRUE
+    /\ ~done /\ Len(hist) >= MinLines /\ done' = TRUE
     /\ (Emit => PrintT("CASE " \o ToJson([h |-> hist, objs |-> objs, last |-> last.k,
                         acc |-> [j \in 1..Len(hist) |-> Accepts(Alpha[hist[j]])]])))
     /\ UNCHANGED <<hist, last, residue, objs>>
